@@ -264,6 +264,5 @@ package util
 //@   let bounded = abs(real(oldAvg)) <= 1.0e300 && abs(real(newValue)) <= 1.0e300 && (oldAvg == newValue || abs(real(newValue) - real(oldAvg)) >= 1.0e-290)
 //@   ensures[C08.finite] abs(real(oldAvg)) <= 1.0e300 && abs(real(newValue)) <= 1.0e300 ==> fin(result)
 //@   ensures[C08.hull]   bounded && n >= 2 ==> min(oldAvg, newValue) <= result && result <= max(oldAvg, newValue)
-//@   ensures[C08.hull1]  n == 1 && isint(oldAvg) && isint(newValue) && abs(real(oldAvg)) <= 1000000000000000.0 && abs(real(newValue)) <= 1000000000000000.0 ==> result == newValue
 //@   ensures[C08.fixpoint] abs(real(oldAvg)) <= 1.0e300 && oldAvg == newValue ==> result == newValue
 //@   modifies nothing
